@@ -23,9 +23,9 @@
        exact expansion; one-norm: exact on steps that do not cross 0, sign(0) = 0 convention, mask >= 0;
      * loss table: evalDerivative value = eval value; batch = sum of elements; gradient = derivative of the
        value (exact algebraic expansion, kinks excluded by explicit side conditions) for squared (both
-       label kinds), hinge and squared hinge with ONE output, eps-hinge, squared eps-hinge, Huber inside
-       the quadratic region.
-   PARTIAL (named *_partial): gradients of the multi-class hinge / squared hinge, of Huber outside the
+       label kinds), hinge (one output and multi-class), squared hinge with ONE output, eps-hinge, squared
+       eps-hinge, Huber inside the quadratic region.
+   PARTIAL (named *_partial): gradients of the multi-class squared hinge, of Huber outside the
      ball (square root) are not proved; the generic chain rule is instantiated only for the linear model.
    ONLY COMPARED / MONITORED by tools/c06.py (not proved): cross-entropy (log-sum-exp, float model at
      1e-12), absolute loss off perfect squares, Huber outer region, NegativeAUC (brute force pairs),
@@ -199,15 +199,25 @@ Theorem C06_squared_loss_class_label_gradient :
 Proof. exact sqc_gradient. Qed.
 Print Assumptions C06_squared_loss_class_label_gradient.
 
-(* full statement: for every output dimension; proved for one output (binary labels) *)
-Theorem C06_hinge_gradient_partial :
+(* HingeLoss: one output (binary labels) and several outputs (multi-class); kinks excluded: every margin term
+   keeps its strict sign along the step *)
+Theorem C06_hinge_binary_gradient :
   forall c x h,
     (0 < 1 - ylab c * x /\ 0 < 1 - ylab c * (x + h)) \/ (1 - ylab c * x < 0 /\ 1 - ylab c * (x + h) < 0) ->
     hinge_eval 1 [(c, [x + h])] - hinge_eval 1 [(c, [x])]
     == h * nth 0 (nth 0 (snd (hinge_evald 1 [(c, [x])])) []) 0.
 Proof. exact hinge_bin_gradient. Qed.
-Print Assumptions C06_hinge_gradient_partial.
+Print Assumptions C06_hinge_binary_gradient.
 
+Theorem C06_hinge_multiclass_gradient :
+  forall c p v t dim, (dim =? 1)%nat = false -> (c < dim)%nat -> length p = dim -> length v = dim ->
+    (forall o, In o (others c dim) -> hinge_mc_same_side c p v t o) ->
+    hinge_eval dim [(c, vaxpy t v p)] - hinge_eval dim [(c, p)]
+    == t * dot (nth 0 (snd (hinge_evald dim [(c, p)])) []) v.
+Proof. exact hinge_mc_gradient. Qed.
+Print Assumptions C06_hinge_multiclass_gradient.
+
+(* full statement: for every output dimension; proved for one output (binary labels) *)
 Theorem C06_squared_hinge_gradient_partial :
   forall c x h,
     (0 < 1 - ylab c * x /\ 0 < 1 - ylab c * (x + h)) \/ (1 - ylab c * x < 0 /\ 1 - ylab c * (x + h) < 0) ->
@@ -263,5 +273,9 @@ Proof. cbn. repeat split; try (left; split; reflexivity); try (right; left; spli
        try (right; right; split; reflexivity); discriminate. Qed.
 Example ex_hinge_side : 0 < 1 - ylab 1 * (1#2) /\ 0 < 1 - ylab 1 * ((1#2) + (1#4)).
 Proof. split; reflexivity. Qed.
+Example ex_hinge_mc_side : forall o, In o (others 0 3) -> hinge_mc_same_side 0 [1; 0; 4] [1; 1; -(1)] (1#2) o.
+Proof.
+  intros o [<-|[<-|[]]]; unfold hinge_mc_same_side; cbn; [left | left]; split; reflexivity.
+Qed.
 Example ex_eval : map Qred (ef_evald LSq ex_m 2 [[ex_e]; [ex_e]]) = map Qred (ef_evald LSq ex_m 1 [[ex_e; ex_e]]).
 Proof. vm_compute. reflexivity. Qed.
